@@ -1394,7 +1394,7 @@ class Router(NetworkNode, discriminator="router"):
 
     def subject_to_acl(self, frame: Frame) -> bool:
         """Check that frame is subject to ACL rules."""
-        if frame.ip.protocol == "udp" and frame.is_arp:
+        if frame.ip.protocol == "udp" and frame.is_arp and isinstance(frame.payload, ARPPacket):
             return False
         return True
 
